@@ -316,6 +316,8 @@ func nestedTwinCases() [][]Step {
 		{Run("rm", "d/t/only"), Run("commit", "-m", "nested directory emptied")},
 		{Run("rm", "d/f"), Run("commit", "-m", "direct child removed"), Run("rm", "d/s"), Run("commit", "-m", "nested directory removed")},
 		{Run("rm", "d/s/x"), Write("d/s/z", "z\n"), Run("add", "d/s/z"), Run("commit", "-m", "one removed, one added: same count")},
+		// an ignore file written after the paths it names were staged: the snapshot is still what is staged
+		{Write(".goitignore", "*.txt\nd/\n"), Write("src/main.go", "main v2\n"), Run("add", "src/main.go"), Run("commit", "-m", "tracked paths now match the ignore file")},
 	}
 	var out [][]Step
 	for _, t := range tails {
